@@ -191,4 +191,25 @@ def fill : Filled :=
 
 end
 
+/-! ### The envelope in which `MIN_SCORE` acts as minus infinity -/
+
+/-- largest substitution score of a symbol pair that occurs (at least 0) -/
+def wMax (sc : Sc) (x y : List Nat) : Int :=
+  x.foldl (fun acc a => y.foldl (fun acc b => max acc (sc.w a b)) acc) 0
+
+/-- `Sane sc x y W`: `W ≥ 0` bounds the substitution scores of the symbol pairs that occur, and `MIN_SCORE` raised by
+`W` once per matrix step stays below the score of the worst global alignment (insert all of `x`, delete all of `y`):
+a value derived from the sentinel can never win the final comparison.  Decidable; the driver evaluates it with
+`W = wMax sc x y` on every call (tag `fill-thm-hyp`). -/
+def Sane (sc : Sc) (x y : List Nat) (W : Int) : Prop :=
+  0 ≤ W ∧ (∀ a ∈ x, ∀ b ∈ y, sc.w a b ≤ W) ∧
+    minScore + ((x.length : Int) + y.length) * W < 2 * sc.go + sc.ge * ((x.length : Int) + y.length)
+
+instance (sc : Sc) (x y : List Nat) (W : Int) : Decidable (Sane sc x y W) := by unfold Sane; infer_instance
+
+/-- all hypotheses of `fill_score_eq_opt`, as the driver evaluates them -/
+def thmHyp (sc : Sc) (cl : Clip) (x y : List Nat) : Bool :=
+  decide (sc.go ≤ 0) && decide (sc.ge ≤ 0) && decide (cl.xp ≤ 0) && decide (cl.xs ≤ 0) && decide (cl.yp ≤ 0) &&
+    decide (cl.ys ≤ 0) && decide (Sane sc x y (wMax sc x y))
+
 end RbV.Model.PairwiseFill
